@@ -125,6 +125,7 @@ def run_harnesses(harnesses, repo, work, root, log, jobs=12, timeout=3000, extra
     if not specs:
         return []
     d = prepare(repo, work, root)
+    timeout = max([timeout] + [int(s_["timeout"]) for s_ in specs if s_.get("timeout")])
     cmd = ["cargo", "kani", "-Z", "function-contracts", "-Z", "stubbing", "-j", str(jobs), "--output-format=terse"]
     for e in extra:
         cmd.append(e)
